@@ -161,9 +161,16 @@ def case_ops(case, obs) -> None:
     obs.sample({"kind": "ops", "leaf": case["leaf"], "ops": ops_done})
 
 
+DIRECT_PARAM_LEAVES = ("pos_diag", "diag", "tri_lower", "tri_upper", "inv_tri", "tri_fact_pd", "tri_fact_def", "dense_pd",
+                       "dense_pd_factor", "dense_def", "dense_sq", "dense_sq_lu", "inv_lu", "dense_sym", "dense_sym_eig", "orth",
+                       "scaled_orth", "eig_sym", "eig_pd", "identity", "pos_scaled", "scaled")
+
+
 def case_order(case, obs) -> None:
+    matgen.LAYOUT["mode"] = "CFS"[case["depth"] % 3]  # same layout for both instances: this case is about access order
     a = matgen.leaf(_rng(case), case["size"], case["leaf"])
     b = matgen.leaf(_rng(case), case["size"], case["leaf"])
+    matgen.LAYOUT["mode"] = "mix"
     rng = _rng(case, 1)
     if case["depth"] % 2 == 0:  # also derived objects: inverse / transpose / scaled
         op = str(rng.choice(["inv", "T", "smul"]))
@@ -198,8 +205,16 @@ def case_order(case, obs) -> None:
 
 
 def case_eq(case, obs) -> None:
+    # equal parameter values handed over in different memory layouts are still equal parameters
+    la, lb = [("C", "F"), ("C", "S"), ("F", "S"), ("S", "S")][case["depth"] % 4]
+    if case["leaf"] not in DIRECT_PARAM_LEAVES:
+        lb = la  # equality of these classes is defined on arrays *computed* from the parameters (layout-dependent rounding)
+    matgen.LAYOUT["mode"] = la
     a = matgen.leaf(_rng(case), case["size"], case["leaf"])
+    matgen.LAYOUT["mode"] = lb
     b = matgen.leaf(_rng(case), case["size"], case["leaf"])
+    matgen.LAYOUT["mode"] = "mix"
+    obs.add_to_set("layout_pairs", [la, lb])
     rng = _rng(case, 2)
     cname = type(a.m).__name__
 
